@@ -498,6 +498,6 @@ def run(ctx, tier):
             'Decides the links of the reuse chain, each of which, when cut, makes the file grow without bound for every overwrite workload: (release-on-begin) every successful '
             'writer begin releases pending pages into the free list it will allocate from; (reuse-before-extend) the high-water mark advances only when the free set returned None; '
             '(persist-both) the persisted list covers free and pending pages; (reload) the persisted list is reloaded in full through the chosen header on open; (shared-freelist) the shared free list changes only at the end of a commit and in open, so an abandoned writer cannot lose it; (publish) the commit '
-            'publishes its free list on every exit after the header write; (deregister/register) readers deregister on drop under the id they registered; (persist-both, second clause) the persisted list walks the whole pending map; (walk-frees-visited) the deletion walk frees only the page it is visiting; (writer-snapshot) the writer copies the free list after it owns the lock; (debug-pure) bodies of debug assertions change no state. (scan-whole-free-set) the first-fit walk over the free set is unbounded. NOT decided: the plateau '
+            'publishes its free list on every exit after the header write; (deregister/register) readers deregister on drop under the id they registered; (persist-both, second clause) the persisted list walks the whole pending map; (walk-frees-visited) the deletion walk frees only the page it is visiting; (writer-snapshot) the writer copies the free list after it owns the lock; (debug-pure) bodies of debug assertions change no state. (scan-whole-free-set) the first-fit walk over the free set is unbounded. (deregister, second clause) a read-only Drop cannot return without searching the registry. NOT decided: the plateau '
             'itself (first-fit arithmetic, fragmentation).'),
         assumptions=['bounded live data', 'readers are eventually dropped'])
